@@ -128,7 +128,7 @@ class Translator:
             return f"(nofZ N (Z.of_nat {text}))"
         if ty == ("opt", "A"):
             # an optional number used as a number (the None case is tested, and raises, before this point)
-            return f"(match {text} with Some v__ => v__ | None => ndiv N (nofZ N 0%Z) (nofZ N 0%Z) end)"
+            return f"(match {text} with Some vopt => vopt | None => ndiv N (nofZ N 0%Z) (nofZ N 0%Z) end)"
         self.fail(node, f"cannot use a value of type {ty} as a number")
 
     def ex(self, n, env, cfg):
@@ -150,6 +150,8 @@ class Translator:
                 return cname(n.id), env[n.id]
             if n.id in cfg.extra_env:
                 return cfg.extra_env[n.id]
+            if n.id in getattr(self, "globals_env", {}):
+                return self.globals_env[n.id]
             self.fail(n, f"unknown name {n.id}")
         if isinstance(n, ast.UnaryOp):
             if isinstance(n.op, ast.USub):
@@ -252,7 +254,7 @@ class Translator:
             return f"(map2 ({f} N) {a} {b})", LA
         if aty == LA and bty in ("A", "Z") and isinstance(n.op, (ast.Div, ast.Mult)):
             f = {ast.Div: "ndiv", ast.Mult: "nmul"}[type(n.op)]
-            return f"(map (fun x__ => {f} N x__ {self.inj(b, bty, n)}) {a})", LA
+            return f"(map (fun xel => {f} N xel {self.inj(b, bty, n)}) {a})", LA
         if isinstance(n.op, ast.Div):
             return f"(ndiv N {self.inj(a, aty, n)} {self.inj(b, bty, n)})", "A"
         ops = {ast.Add: ("nadd", "Z.add", "Nat.add"), ast.Sub: ("nsub", "Z.sub", None),
@@ -347,7 +349,7 @@ class Translator:
 
     def call(self, n, env, cfg):
         f = n.func
-        if n.keywords:
+        if n.keywords and not (isinstance(f, ast.Attribute) and f.attr in ("dot", "array") and all(k.arg in ("out", "dtype") for k in n.keywords)):
             self.fail(n, "keyword arguments")
         # numpy / builtins
         if isinstance(f, ast.Attribute) and isinstance(f.value, ast.Name) and f.value.id in ("np", "numpy"):
@@ -366,6 +368,12 @@ class Translator:
                 if ty != ("list", "A"):
                     self.fail(n, f"np.{f.attr} of {ty}")
                 return f"({f.attr} N {t})", "nat"
+            if f.attr == "dot" and getattr(self, "np_dot_tab", None) and len(n.args) == 2 and \
+                    ast.unparse(n.args[0]) == f"{self.np_dot_tab}[l - 1, s - 1]" and ast.unparse(n.args[1]) == "beta_array":
+                # a = np.dot(c_xx[l-1, s-1], [1, beta, beta^2])
+                return f"(fit_coeffs ({self.np_dot_tab}_tab l s_) beta_value)", ("list", "A")
+            if f.attr == "array" and len(n.args) >= 1 and ast.unparse(n.args[0]) == "[1, beta_value, beta_value ** 2]":
+                return "(nofZ N 0%Z)", "A"       # beta_array: consumed only by the np.dot above
             if f.attr in ("sum", "prod") and len(n.args) == 1:
                 t, ty = self.ex(n.args[0], env, cfg)
                 if ty != ("list", "A"):
@@ -446,6 +454,8 @@ class Translator:
             self.fail(n, "chained comparison")
         op = n.ops[0]
         a, aty = self.ex(n.left, env, cfg)
+        if aty == "name" and isinstance(n.comparators[0], ast.Constant) and n.comparators[0].value == "e" and isinstance(op, ast.Eq):
+            return f"(Nat.eqb {a} 0)", "bool"
         b, bty = self.ex(n.comparators[0], env, cfg)
         if isinstance(op, (ast.Is, ast.IsNot)) and b == "None":
             if not (isinstance(aty, tuple) and aty[0] == "opt"):
@@ -560,6 +570,14 @@ class Translator:
         if isinstance(st, ast.Return):
             if st.value is None:
                 self.fail(st, "bare return")
+            if getattr(self, "class_mode", False):
+                # dispatch summary: which function is called, with the two species in which order
+                v = st.value
+                if isinstance(v, ast.Call) and isinstance(v.func, ast.Name):
+                    names = [a.id for a in v.args if isinstance(a, ast.Name) and env.get(a.id) == "species"]
+                    order = "true" if names[:1] == ["species_i"] else "false"
+                    return f"(CCall {v.func.id}_tag {order})", "qclass"
+                self.fail(st, "dispatch branch that is not a call")
             return self.ex(st.value, env, cfg)
         if isinstance(st, ast.Raise):
             # a raise is the error outcome: rendered by the per-function error value
@@ -770,6 +788,8 @@ class Translator:
             return ty
         if ty == "species":
             return "(species A)"
+        if ty == "qclass":
+            return "qclass"
         if isinstance(ty, tuple):
             if ty[0] == "list":
                 return f"(list {self.coq_type(ty[1], True)})"
